@@ -111,10 +111,11 @@ def copy_data_yield(data_length, blocksize, infp, outfp):
         data = infp.read(readsize)
         # We have seen ISOs in the wild (Tribes Vengeance 1of4.iso) that
         # lie about the size of their files, causing reads to fail (since
-        # we hit EOF before the supposed end of the file).  If we got less data
-        # than we asked for, abort the loop silently.
+        # we hit EOF before the supposed end of the file).  If we got no data
+        # at all, abort the loop silently.  Getting less data than we asked
+        # for is not the end, though; a raw stream is allowed to do that.
         data_len = len(data)
-        if data_len != readsize:
+        if data_len == 0:
             data_len = left
         outfp.write(data)
         left -= data_len
